@@ -311,12 +311,12 @@ def family_obligations(shape, moore, plus_one, objective, which=None, state_idx=
         if which and not any(name.startswith(w) for w in which):
             continue
         if state_idx is None or name == 'init':
-            out.append(_decide(name0, name, fs, shape, moore, plus_one, objective, params, bits, sample, nontrivial))
+            out.append(_decide(name0, name, fs, shape, moore, plus_one, objective, params, bits, sample, nontrivial, aut.vars))
             continue
         for si in state_idx:
             at = [bits(b) == z3.BoolVal(v) for b, v in zip(sbits, states[si])]
             out.append(_decide(name0, f'{name}@state{si}', fs + at, shape, moore, plus_one, objective, params,
-                               bits, sample, nontrivial))
+                               bits, sample, nontrivial, aut.vars))
     if which is None or 'liveness' in which:
         out.append(_liveness(name0, aut, exp, eA, eE, eI, eEI, sbits, mbits, objective, shape, moore,
                              plus_one, params, sample, nontrivial))
@@ -325,7 +325,7 @@ def family_obligations(shape, moore, plus_one, objective, which=None, state_idx=
     return out
 
 
-def _decide(name0, name, fs, shape, moore, plus_one, objective, params, bits, sample, nontrivial):
+def _decide(name0, name, fs, shape, moore, plus_one, objective, params, bits, sample, nontrivial, table=None):
     import z3
     from vlib import family
     sol = z3.Solver()
@@ -340,7 +340,7 @@ def _decide(name0, name, fs, shape, moore, plus_one, objective, params, bits, sa
         return core.res(full, 'holds', queries={r: 1}, solver_s=dt, sample=sample, nontrivial=nontrivial, functions=funcs)
     if r != 'sat':
         return core.res(full, 'inconclusive', queries={r: 1}, solver_s=dt, sample=sample, detail=f'solver answered {r}')
-    vals = family.model_params(sol.model(), params, bits)
+    vals = family.model_params(sol.model(), params, bits, table)
     return _replay_result(full, name, shape, moore, plus_one, objective, vals, params, r, dt, sample)
 
 
@@ -348,7 +348,8 @@ def _replay_result(full, name, shape, moore, plus_one, objective, vals, params, 
     base = name.split('[')[0].split('@')[0]
     found = replay_member(shape, moore, plus_one, objective, vals, only=[base])
     hit = [f for f in found if f[0] == base]
-    desc = ''.join('1' if vals[p] else '0' for p in params)
+    from vlib.props.c01 import _describe
+    desc = _describe(vals, params)
     if hit:
         mode = f'{"moore" if moore else "mealy"}:{"plus_one" if plus_one else "stepwise"}'
         return core.res(full, 'violation', queries={r: 1}, solver_s=dt, sample=sample, nontrivial=True,
@@ -366,7 +367,7 @@ def replay_member(shape, moore, plus_one, objective, values, only=None):
     from vlib import family
     from vlib.props import c01
     aut, params = family.build(shape, moore, plus_one)
-    c01.concrete_member(aut, {p: bool(values[p]) for p in params})
+    c01.concrete_member(aut, {p: values[p] for p in params})
     try:
         z, mem, mem_init = construct(aut, objective)
     except AssertionError:
@@ -458,7 +459,7 @@ def _liveness(name0, aut, exp, eA, eE, eI, eEI, sbits, mbits, objective, shape, 
                         extra=dict(states=N, transitions=N * N))
     if r != 'sat':
         return core.res(full, 'inconclusive', queries={r: 1}, solver_s=dt, sample=s2, detail=f'solver answered {r}')
-    vals = family.model_params(sol.model(), params, bits)
+    vals = family.model_params(sol.model(), params, bits, aut.vars)
     return _replay_result(full, 'liveness', shape, moore, plus_one, objective, vals, params, r, dt, s2)
 
 
@@ -472,7 +473,13 @@ def _pointwise(aut, params, shape, moore, plus_one, objective, name0, k=3):
     impl_f, init_f = aut.action['impl'], aut.init['impl']
     out = []
     for i in range(k):
-        vals = {p: rnd.random() < 0.6 for p in params}
+        vals = {}
+        for p in params:
+            d = aut.vars[p]
+            if d['type'] == 'bool':
+                vals[p] = rnd.random() < 0.6
+            else:
+                vals[p] = rnd.randint(*d['dom'])
         a2, _ = family.build(shape, moore, plus_one)
         c01.concrete_member(a2, vals)
         try:
